@@ -126,7 +126,14 @@ func (c *Ctx) addArgsSkeleton(r *Report, rule string) {
 		inLoop := false
 		if u, ok := c.resolve(a[1]).(*ssa.UnOp); ok {
 			if fa, ok := u.X.(*ssa.FieldAddr); ok {
-				if hu, ok := fa.X.(*ssa.UnOp); ok {
+				holder := fa.X
+				if p, isP := holder.(*ssa.Parameter); isP {
+					// the conversion moved into a new method of the positional: its receiver is the head read by the caller
+					if b, ok := c.paramBinding(p); ok {
+						holder = b
+					}
+				}
+				if hu, ok := holder.(*ssa.UnOp); ok {
 					if ia, ok := hu.X.(*ssa.IndexAddr); ok {
 						if pl, ok := ia.X.(*ssa.UnOp); ok {
 							inLoop = c.inLoop(l, pl.Block()) && c.inLoop(l, hu.Block())
@@ -454,6 +461,30 @@ func runC10(c *Ctx, r *Report, tier string) {
 							}
 							if src == "" {
 								src = c.term(st.Val)
+							}
+							if u, ok := st.Val.(*ssa.UnOp); ok && strings.HasPrefix(src, "cell:multiTag") {
+								// constructor and Parse merged into a new helper returning (multiTag, error): the tag is the
+								// helper's multiTag result, built there by newMultiTag from the helper's own argument
+								if root, ok := c.cellRoot(u.X); ok {
+									if stores, _ := c.cellStores(root); len(stores) == 1 {
+										if ex, ok := stores[0].Val.(*ssa.Extract); ok {
+											if hc, ok := ex.Tuple.(*ssa.Call); ok {
+												if h := hc.Call.StaticCallee(); h != nil && c.isNew(h) && len(hc.Call.Args) == 1 {
+													at := c.term(hc.Call.Args[0])
+													fromArg := false
+													for _, in2 := range c.instrs(h, c.isCallTo("newMultiTag")) {
+														if p, ok := in2.(*ssa.Call).Call.Args[0].(*ssa.Parameter); ok && p.Parent() == h {
+															fromArg = true
+														}
+													}
+													if fromArg && (at == "conv[string](StructField.Tag(new:reflect.StructField))" || at == "StructField.Tag(new:reflect.StructField)") {
+														src = "call:newMultiTag(StructField.Tag(new:reflect.StructField))"
+													}
+												}
+											}
+										}
+									}
+								}
 							}
 							if strings.HasPrefix(src, "cell:multiTag") {
 								// the constructor written out: multiTag{value: string(field.Tag)}
